@@ -15,11 +15,11 @@ Genuine defect found by this check on the pinned tree (known_findings.d/C20.json
 proposed_fixes/C20.diff): `[default, non-default]` of one family is rejected with
 DuplicateDefaultAddr, the reverse order is accepted.
 
-Mutation self-tests done while building (see final report): with proposed_fixes/C20.diff
-applied the check passes with no KNOWN-FINDING line; on top of the fix (a) removing the
-duplicate test for IPv6 only (two IPv6 defaults accepted) and (b) swapping the condition to
-`!opts.is_default_route()` were both reported as VIOLATION (sigs accepted_invalid /
-rejected_valid with a different pattern than the known finding); undoing them -> exit 0.
+Self-tests done while building: with proposed_fixes/C20.diff applied to /repo the quick tier
+passes with 0 known-finding hits (34 708 evaluations); on top of the fix, dropping the IPv6
+duplicate-default test (`if false && ...`) -> `VIOLATION property=C20`, kind accepted_invalid
+(e.g. bind [fd00::1]:40000 /0 then bind_addr([fd00:0:0:1::1]:40001): two IPv6 default routes
+accepted), a signature different from the known finding; undone -> exit 0 (KNOWN-FINDING only).
 """
 import json
 
